@@ -110,7 +110,9 @@ def _last_axis_slice(sl) -> bool:
 
 def _r1(chk, repo, ci):
     n = 0
+    from ..canon import fold_class_literals
     for kind, name, fn in ci.all_functions():
+        fn = fold_class_literals(fn, repo, ci)           # a named class-level number (`_SAMPLE_AXIS = -1`) read as the number
         requires_vec = any(isinstance(c, ast.Call) and call_name(c) == "self._raise_error_if_not_vec" for c in ast.walk(fn)) or \
             any(_norm(t) in ("notself.is_vec", "len(self.samples.shape)!=2") for t in [x.test for x in ast.walk(fn) if isinstance(x, ast.If)])
         for sub in walk_no_nested(fn):
